@@ -41,6 +41,7 @@ type ixOp struct {
 	Did    int
 	Fault  int  // inval: relative index of the failing delete call (-1 none)
 	Mid    bool // inval: AddLabels of a fresh key to Labels[0] from inside the failing delete (monitor only)
+	Panic  bool // inval: the failing deleter does not return an error, it panics (the caller recovers)
 	Retry  bool
 }
 
@@ -54,6 +55,9 @@ func (o ixOp) String() string {
 	s := fmt.Sprintf("Invalidate(%v,fault@%d", o.Labels, o.Fault)
 	if o.Mid {
 		s += ",addlabels-inside-delete"
+	}
+	if o.Panic {
+		s += ",deleter-panics"
 	}
 	if o.Retry {
 		s += ",then-retry"
@@ -129,6 +133,7 @@ func genIx(seed int64, idx int, tier string) ixScenario {
 				op.Fault = rng.Intn(6)
 				op.Retry = rng.Intn(3) != 0
 				op.Mid = rng.Intn(4) == 0
+				op.Panic = !op.Mid && rng.Intn(4) == 0
 			}
 			sc.Ops = append(sc.Ops, op)
 		}
@@ -148,6 +153,7 @@ type ixRun struct {
 	keyLog   []string // key per call
 	outLog   []int    // outcome per call: 0 removed, 1 not found, 2 injected failure, 3 other error
 	faults   map[int]bool
+	panics   bool // a fault is a panic, not an error
 	midHook  func()
 	midFired bool
 }
@@ -162,6 +168,9 @@ func (d *ixDeleter) Delete(ctx context.Context, key []byte) error {
 		if d.run.midHook != nil && !d.run.midFired {
 			d.run.midFired = true
 			d.run.midHook()
+		}
+		if d.run.panics {
+			panic(errInjected)
 		}
 		return errInjected
 	}
@@ -328,6 +337,7 @@ func runIxScenario(d *Driver, id string, sc ixScenario, res *Result) *seqFail {
 		}
 		run.midFired = false
 		run.midHook = nil
+		run.panics = op.Panic && faultAbs >= 0
 		var midKeys []int
 		if mid {
 			for j := 0; j < 3; j++ {
@@ -357,7 +367,13 @@ func runIxScenario(d *Driver, id string, sc ixScenario, res *Result) *seqFail {
 			defer func() { panicked = recover() }()
 			n, err = ix.InvalidateByLabels(ctx, labels...)
 		}()
-		if panicked != nil {
+		if panicked != nil && panicked == interface{}(errInjected) && run.panics {
+			// the deleter itself panicked and the caller recovered: to the index this is a failed delete like any other - what
+			// was cut and not deleted goes back, a retry after recovery removes it
+			err = errInjected
+			n = -1 // (no count was returned)
+			res.count("inval:deleter-panic-recovered")
+		} else if panicked != nil {
 			return &seqFail{"monitor", "C15", "inval:panic", fmt.Sprintf("op #%d %s panicked: %v", i, op, panicked), i, nil}, true
 		}
 		if err != nil && !errors.Is(err, errInjected) {
@@ -384,7 +400,7 @@ func runIxScenario(d *Driver, id string, sc ixScenario, res *Result) *seqFail {
 			}
 		}
 		// monitor: count
-		if n != removed {
+		if n != removed && n >= 0 {
 			return &seqFail{"monitor", "C15", "inval:count", fmt.Sprintf("op #%d %s: returned count %d but %d cache entries were removed", i, op, n, removed), i, nil}, err != nil
 		}
 		inL := func(name, k int) bool {
@@ -516,6 +532,13 @@ func runIxScenario(d *Driver, id string, sc ixScenario, res *Result) *seqFail {
 			impl = fmt.Sprintf("n=%d ok=%d", n, okb)
 			if j := strings.Index(r, " calls="); j >= 0 {
 				r = r[:j]
+			}
+		}
+		if n < 0 {
+			// the call ended in the deleter's panic: no count came back, the rest is compared
+			impl = impl[strings.Index(impl, " ")+1:]
+			if j := strings.Index(r, " "); j >= 0 && strings.HasPrefix(r, "n=") {
+				r = r[j+1:]
 			}
 		}
 		if r != impl && firstCorr == nil {
